@@ -48,6 +48,13 @@ func checkC02(r *Report) {
 	tableTrusted(r)
 	r.Explain = "The ordering of versions agrees with each ecosystem only if the finite keyword tables the comparators consult agree with the ecosystems' normative tables. Decided (TABLE/ORACLE, TABLE/PREFIX-ORDER on folded literals): Maven's qualifier order (alpha < beta < milestone < rc = cr < snapshot < '' = ga = final = release < sp, all below unknown qualifiers) and the a/b/m shorthand; PEP 440 prerelease spellings (alpha,a -> a; beta,b -> b; c,rc,pre,preview -> rc) and post spellings (post, rev, r), each list matched first-fit so no earlier entry may be a proper prefix of a later one; the PEP 440 rank constants (dev < a < b < rc < final < local < post) and the mapping from canonical spelling to rank. This is a necessary condition only: the comparison algorithms themselves quantify over value pairs and are not decided."
 	r.Assume = []string{"normative tables: Maven ComparableVersion (maven-artifact 3.x) qualifier list; PEP 440 'Pre-release spelling' and 'Post-release spelling' normalisation rules"}
+	// TRIM-SUFFIX: loops that trim trailing elements stop at the first element that stays
+	nLoops, nTrims := trimSuffixRule(r, p, "C02/TRIM-SUFFIX", "semver", "resolve/npm", "resolve/pypi", "resolve/maven", "maven", "pypi")
+	r.floor("C02/TRIM-SUFFIX", "descending counted loops examined", nLoops, 3)
+	_ = nTrims
+	// NUMBER-WIDTH: numbers are not parsed narrower than the field that holds them
+	nW := numberWidthRule(r, loadResolve("", true), "C02/NUMBER-WIDTH", "semver")
+	r.floor("C02/NUMBER-WIDTH", "strconv.ParseUint/ParseInt calls with a constant bit size in package semver", nW, 4)
 
 	// (a) Maven qualifier order
 	if init := pkgVarInit(pk, "mavenVersionQualifierOrder"); init == nil {
